@@ -188,6 +188,14 @@ Definition gateway_headers : list header := [("X-Krakend-Completed", "false")].
 Definition noop_status (r : router) (st : Z) : Z :=
   match r with Gin => st | Mux => if (st =? 0)%Z then 200%Z else st end.
 
+(* the http client's error-reporting flags in the backend's extra_config (return_error_details /
+   return_error_code).  NewHTTPProxyWithHTTPExecutor (proxy/http.go:44-46) wires NoOpHTTPStatusHandler
+   for a no-op backend BEFORE anything looks at extra_config: the flags are ignored, every status
+   passes with its headers and body.  (For the decoding encodings they are C12's subject.) *)
+Inductive errflag := FNone | FDetails (name : string) | FCode.
+Inductive status_handler := HNoOp | HDefault | HDetailed (name : string) | HErrorCode.
+Definition noop_backend_status_handler (f : errflag) : status_handler := HNoOp.
+
 Record nobs := { n_status : Z; n_headers : list header; n_body : list chunk; n_err : bool }.
 
 Definition noop_client_sched (r : router) (cc : nat) (st : Z) (hs : list header) (body : list chunk)
